@@ -114,12 +114,13 @@ func init() {
 			}
 			// sizes random formulas never reach: refutations with one decision level per variable, learned
 			// clauses and certificate lines of 100 literals and more (local tier)
-			for _, nn := range append([]int{9, 33, 100 + r.Intn(12)}, make([]int, env.Pick(0, 12))...) {
+			for _, nn := range append([]int{9, 33, 101 + r.Intn(12)}, make([]int, env.Pick(0, 12))...) {
 				if nn == 0 {
 					nn = 60 + r.Intn(90)
 				}
-				clauses, nv := gen.WideChain(r, nn)
-				if r.Intn(2) == 0 {
+				ordered := nn >= 100 || r.Intn(2) == 0
+				clauses, nv := gen.WideChain(r, nn, ordered)
+				if !ordered && r.Intn(2) == 0 {
 					clauses = gen.Shuffle(r, clauses)
 				}
 				c := gen.APICase("slicenb", nv, true, gen.ClauseCtors(clauses), false, nil, gen.Cfg(true, 0, 0, false, false, false), []gen.M{gen.Op("solve")})
